@@ -28,7 +28,8 @@ LEAN_MODULES = ['Yaql.Props.C02', 'Yaql.Props.C02Table', 'Yaql.Props.C02Levels',
                 'Yaql.Props.C02Iso', 'Yaql.Props.C02Gen', 'Yaql.Props.C03Parse']
 REQUIRED_THEOREMS = [
     'Yaql.Props.C02.parse_sound', 'Yaql.Props.C02.parse_roundtrip', 'Yaql.Props.C02.parse_unique',
-    'Yaql.Props.C02.yield_injective',
+    'Yaql.Props.C02.yield_injective', 'Yaql.Props.C02.parse_complete', 'Yaql.Props.C02.parse_iff',
+    'Yaql.Props.C02Gen.live_no_amb', 'Yaql.Props.C02Gen.default_engine_trees', 'Yaql.Props.C02Gen.legacy_engine_trees',
     'Yaql.Props.C02Table.insert_same_group', 'Yaql.Props.C02Table.insert_new_group',
     'Yaql.Props.C02Table.insert_front',
     'Yaql.Props.C02Levels.levels_contiguous', 'Yaql.Props.C02Levels.populated_insert',
